@@ -371,6 +371,12 @@ impl Spec {
                 // a trailing comment on a line that had none (not one of the tags the DHW indicator reads)
                 txt.push_str(" # añadido <x> & \"y\"");
             }
+            if rw.comments && !l.comment().is_empty() && r.chance(1, 3) {
+                // a remark with its own '#' inserted before the existing comment
+                if let Some((body, c)) = txt.split_once('#') {
+                    txt = format!("{}# nota 2,5 #{}", body, c);
+                }
+            }
             if rw.padding {
                 let (body, comment) = match txt.split_once('#') {
                     Some((b, c)) => (b.to_string(), Some(c.to_string())),
